@@ -56,7 +56,8 @@ TrReset == IsEvent("reset") /\ CResetTo(TraceLog[l].rt)
 
 Apply(i) ==
   CASE i.op = "skip"    -> CCommit(CCur)
-    [] i.op = "api"     -> ~Busy(CCur, i.g) /\ CCommit(ApiFx(CCur, i.g, i.kind, i.name, i.prog, i.tmo))
+    [] i.op = "api"     -> ~Busy(CCur, i.g) /\ CCommit(IF i.kind = "callp" THEN CallProgFx(CCur, i.g, i.name, i.prog, i.tmo, i.a, i.how)
+                                                            ELSE ApiFx(CCur, i.g, i.kind, i.name, i.prog, i.tmo))
     [] i.op = "reply"   -> CCommit(ReplyFx(CCur, i.id, i.mk, i.a))
     [] i.op = "sched"   -> CCommit(ScheduleFx(CCur, i.id, i.mk, i.a, i.ms))
     [] i.op = "advance" -> \E tie \in {"reply", "timer"}, ord \in {"lo", "hi"} : CCommit(CAdvanceFx(CCur, i.ms, tie, ord))
